@@ -6,7 +6,7 @@
    are skipped, so every interleaving and every placement of Restart / Stop /
    cancel relative to ticks is covered. Premise of the model: the first
    schedule's start delay is shorter than the one-hour placeholder ticker. *)
-From F1 Require Import Base.Prelude Model.Runner Proofs.RunnerProofs.
+From F1 Require Import Base.Prelude Model.Runner Proofs.RunnerProofs Proofs.RunnerTimed.
 
 (* The function is invoked only after Start, and at most once per tick that
    the ticker of the then-active schedule delivered. *)
@@ -94,6 +94,32 @@ Example C18_checker_rejects :
   runner_trace_ok 1 [VStart; VNext; VStopCalled; VStopReturned; VFnStart 0] = false /\
   runner_trace_ok 2 [VStart; VNext; VFnStart 0; VFnEnd; VNext; VFnStart 1; VFnEnd; VFirst; VFnStart 0; VFnEnd] = true.
 Proof. vm_compute. repeat split. Qed.
+
+(* "Moving to the next schedule after its start delay", with time: in every timed run of the model
+   in which the environment's timer and ticker events never come early (texec skips a step that
+   is not enabled, goes back in time, or would have the next-schedule timer fire less than the
+   next schedule's start delay after the current schedule started - or, for the first, after
+   New() - or the current ticker tick less than one period after it was created), the timed log
+   of schedule steps and function starts is accepted by the checker the harness runs on the real
+   runner's timed log. An alarm of that checker is a behaviour no such run of the model has. *)
+Theorem C18_timed_checker_sound : forall delays freqs run,
+  (1 <= length delays)%nat ->
+  runner_timed_ok delays freqs (texec delays freqs (rinit (Z.of_nat (length delays))) 0 0 run) = true.
+Proof. exact timed_checker_sound. Qed.
+Print Assumptions C18_timed_checker_sound.
+
+(* Non-vacuity: a timed run that starts the first schedule at 1, runs the function at 21, is
+   restarted at 400, runs the function at 420, moves on at 1000 and runs the function at 1035;
+   the attempt to move on at 700 (the timer has not fired: too early after the restart) and a
+   tick at 1010 (less than a period after the second schedule began) are not steps of the model. *)
+Example C18_timed_run_example :
+  texec [0; 600] [20; 35] (rinit 2) 0 0
+    [(LStart, 0); (LEnvTimer, 1); (LSelTimer, 1); (LEnvTick, 21); (LSelTick, 21); (LFnEnd, 22);
+     (LRestart, 399); (LSelRestart, 400); (LEnvTick, 420); (LSelTick, 420); (LFnEnd, 421);
+     (LEnvTimer, 700); (LSelTimer, 700); (LEnvTimer, 1000); (LSelTimer, 1000); (LEnvTick, 1010); (LSelTick, 1010);
+     (LEnvTick, 1035); (LSelTick, 1035)]
+  = [(8, 0, 1); (1, 0, 21); (7, 0, 400); (1, 0, 420); (8, 0, 1000); (1, 1, 1035)].
+Proof. vm_compute. reflexivity. Qed.
 
 (* The timed checker (runner_timed_ok) accepts a run in which a Restart on the first schedule
    re-arms the second schedule's start delay, and rejects the run in which the second schedule
